@@ -1,4 +1,5 @@
-import BppProofs.Lemmas.Observer
+import BppProofs.Lemmas.ObserverWorld
+import BppProofs.Props.C14
 /-!
 # C14, association layer (src/Bpp/Graph/AssociationGraphImplObserver.h)
 
@@ -71,5 +72,84 @@ theorem linking_edge_reported (w : World) (o : Obs) (a b : Obj) (ia ib : Nat)
     (ha : find a o.Ng = some ia) (hb : find b o.Ng = some ib) :
     World.edgeLinking w o a b = (w.g.getEdge ia ib).map o.edgeFromGid := by
   simp [World.edgeLinking, ha, hb]
+
+/-! ## Over all histories of a graph and its observers -/
+
+theorem winv_init (d : Bool) : WInv (World.init d) := by
+  refine ⟨consistent_empty d, rfl, ?_⟩
+  intro k o hk
+  simp only [World.init, World.getObs] at hk
+  match k, hk with
+  | 0, hk => simp at hk; subst hk; exact assoc_empty _
+  | 1, hk => simp at hk
+  | 2, hk => simp at hk
+  | k + 3, hk => simp at hk
+
+theorem all_world {α : Type} {w : World} {r : OOut α} (hw : WInv w) (h : r.All WInv) : WInv (r.world w) := by
+  cases r <;> first | exact h | exact hw
+
+theorem winv_step (w : World) (hw : WInv w) (op : WOp) : WInv (w.step op) := by
+  cases op with
+  | graph op => exact world_graphOp_inv hw op
+  | createNode k a => exact all_world hw (world_createNode_inv hw k a)
+  | createNodeFrom k o a x => exact all_world hw (world_createNodeFrom_inv hw k o a x)
+  | link k a b x => exact all_world hw (world_link_inv hw k a b x)
+  | unlink k a b => exact all_world hw (world_unlink_inv hw k a b)
+  | deleteNode k a => exact all_world hw (world_deleteNode_inv hw k a)
+  | associateNode k a id => exact all_world hw (localOp_inv hw k _ (fun o o' hi h => associateNode_inv hi h))
+  | associateEdge k x e => exact all_world hw (localOp_inv hw k _ (fun o o' hi h => associateEdge_inv hi h))
+  | dissociateNode k a => exact all_world hw (localOp_inv hw k _ (fun o o' hi h => dissociateNode_inv hi h))
+  | dissociateEdge k x => exact all_world hw (localOp_inv hw k _ (fun o o' hi h => dissociateEdge_inv hi h))
+  | setNodeIndex k a i => exact all_world hw (localOp_inv hw k _ (fun o o' hi h => setNodeIndex_inv hi h))
+  | addNodeIndex k a =>
+    refine all_world hw (localOp_inv hw k _ ?_)
+    intro o o' hi h
+    rcases hr : World.addNodeIndexO o a with kd | ⟨i, o2⟩ <;> rw [hr] at h
+    · cases h
+    · injection h with h; subst h; exact (addNodeIndex_inv hi hr).1
+  | setEdgeIndex k x i => exact all_world hw (localOp_inv hw k _ (fun o o' hi h => setEdgeIndex_inv hi h))
+  | addEdgeIndex k x =>
+    refine all_world hw (localOp_inv hw k _ ?_)
+    intro o o' hi h
+    rcases hr : World.addEdgeIndexO o x with kd | ⟨i, o2⟩ <;> rw [hr] at h
+    · cases h
+    · injection h with h; subst h; exact (addEdgeIndex_inv hi hr).1
+  | setEdgeLinking k a b x => exact all_world hw (localOp_inv hw k _ (fun o o' hi h => setEdgeLinking_inv hi h))
+  | copy j k => exact all_world hw (world_copy_inv hw j k)
+  | drop k =>
+    simp only [World.step]
+    split
+    · exact hw
+    · exact world_drop_inv hw k
+
+/-- **assoc_bijective**, over all histories: after any sequence of operations on a graph and up to
+three observers of it (creations, links, unlinks, deletions through any observer or directly on the
+shared graph, direction changes, associations, explicit and allocated indices, observer copies and
+destructions — each call succeeding or raising), the graph is consistent and in every observer the
+object↔id and object↔index maps are inverse of each other with every associated id live in the graph -/
+theorem assoc_bijective (d : Bool) (ops : List WOp) : WInv ((World.init d).run ops) := by
+  suffices h : ∀ w, WInv w → WInv (w.run ops) from h _ (winv_init d)
+  induction ops with
+  | nil => intro w hw; exact hw
+  | cons op r ih => intro w hw; exact ih _ (winv_step w hw op)
+
+/-- … in particular no object is associated to a node or edge that has been deleted, whoever
+deleted it (**deleted_forgotten**, every map of every observer) -/
+theorem no_dead_association (d : Bool) (ops : List WOp) (k : Nat) (o : Obs)
+    (hk : ((World.init d).run ops).getObs k = some o) :
+    (∀ a id, find a o.Ng = some id → ((World.init d).run ops).g.hasNode id = true) ∧
+    (∀ x e, find x o.Eg = some e → ((World.init d).run ops).g.hasEdge e = true) ∧
+    (∀ id a, Vec.get o.gN id = some a → ((World.init d).run ops).g.hasNode id = true) ∧
+    (∀ e x, Vec.get o.gE e = some x → ((World.init d).run ops).g.hasEdge e = true) := by
+  have hi := (assoc_bijective d ops).obs k o hk
+  exact ⟨hi.n_live, hi.e_live, fun id a h => hi.n_live a id (hi.nodes.fwd id a h), fun e x h => hi.e_live x e (hi.edges.fwd e x h)⟩
+
+/-- **copy_independent_same_relations** (the relations part): a copy holds the same object↔id pairs
+and the same index for every registered object, and is in order against the shared graph -/
+theorem copy_same_relations (g : G) (o : Obs) (hi : OInv g o) :
+    OInv g (World.copyObs o) ∧ (World.copyObs o).Ng = o.Ng ∧ (World.copyObs o).Eg = o.Eg ∧
+    (∀ a, find a (World.copyObs o).Ni = if (find a o.Ng).isSome then find a o.Ni else none) ∧
+    (∀ x, find x (World.copyObs o).Ei = if (find x o.Eg).isSome then find x o.Ei else none) :=
+  ⟨copyObs_inv hi, rfl, rfl, fun a => find_restrict o.Ng o.Ni hi.nodes.asc a, fun x => find_restrict o.Eg o.Ei hi.edges.asc x⟩
 
 end Bpp.C14
